@@ -10,7 +10,8 @@ from harness import fm_common as fm
 RULE = ('real TransmissionModel/EmissionModel with 1-3 molecules (different native grids: the longest is native, the '
         'others are sub-sampled), native grids linear/log/constant-R with 24-160 points; requests: sub-range of native '
         'points, observation-like grids (centres off the native points) satisfying the width condition, '
-        'cutoff_grid True/False; opacity requests on own points and on other points. binned equality is judged on every '
+        'cutoff_grid True/False; opacity requests on own points and on other points (k-table layout: also requests reaching '
+        'beyond the first / last / both end points of the table, where the end value holds). binned equality is judged on every '
         'observation bin satisfying the property\'s own condition = the hypotheses of the Lean theorems bin_clip_eq_property / '
         'bin_clip_eq_uniform_property, evaluated on every generated observation (native spacing <= W/2, or constant spacing '
         '<= 3/2 W; bin within [min-W/2, max+W/2]; mid-point spacing condition for the native and the kept grid), both for the '
@@ -781,13 +782,30 @@ def run_opacity(ctx):
                     break
 
 
-def run_ktable_case(ctx, op, wn, native_vals, T, P, k, ng):
+def run_ktable_case(ctx, op, wn, native_vals, T, P, k, ng, kind=None):
     """KTable.opacity(T,P,wngrid): same grid handling as Opacity.opacity, per g-point (scipy interp1d, linear,
     edge fill = np.interp's clamping)"""
     rng = ctx.rng
     n = len(wn)
-    kind = ['own', 'other', 'mixed', 'top-between'][(k // 4) % 4]
-    if kind == 'own':
+    kind = kind or ['own', 'other', 'mixed', 'top-between'][(k // 4) % 4]
+    if kind.startswith('beyond-'):
+        # the request reaches beyond the table's first / last point (a molecule whose k-table covers only part of the grid
+        # being computed): points outside take the end value, points inside are interpolated / own points unchanged
+        i = int(rng.integers(0, n - 2)); j = int(rng.integers(i + 1, n - 1))
+        span = float(wn[-1] - wn[0])
+        inside = [wn[i:j + 1], rng.uniform(wn[i], wn[j], size=int(rng.integers(0, 4)))]
+        below = np.maximum(1.0, wn[0] - rng.uniform(0.01, 0.5, size=int(rng.integers(1, 4))) * span)
+        above = wn[-1] + rng.uniform(0.01, 0.5, size=int(rng.integers(1, 4))) * span
+        if kind == 'beyond-bottom':
+            req = np.concatenate([below, wn[:i + 1]] + inside)
+        elif kind == 'beyond-top':
+            req = np.concatenate(inside + [wn[j:], above])
+        else:
+            req = np.concatenate([below] + inside + [above])
+            if k % 2:
+                req = np.concatenate([req, wn])
+        req = np.unique(req)
+    elif kind == 'own':
         i = int(rng.integers(0, n - 1)); j = int(rng.integers(i + 1, n)); req = wn[i:j + 1].copy()
     elif kind == 'other':
         req = np.sort(rng.uniform(wn[0], wn[-1], size=int(rng.integers(2, 12))))
@@ -833,6 +851,24 @@ def run_ktable_case(ctx, op, wn, native_vals, T, P, k, ng):
                 return
 
 
+def run_ktable_beyond(ctx):
+    """KTable.opacity(T,P,wngrid) for requests that reach beyond one or both ends of the table (the table of a molecule that
+    does not supply the native grid and is narrower than the range being computed); after the older streams, whose draws
+    stay as they were"""
+    from harness.c04 import make_opacity
+    rng = ctx.rng
+    for k in range(ctx.n(36, 900)):
+        n = int(rng.integers(4, 30))
+        wn = np.sort(rng.choice(np.arange(600, 9000, 1.5), size=n, replace=False))
+        ng = int(rng.integers(1, 5))
+        tab = 10 ** rng.uniform(-30, -18, size=(2, 2, n, ng))
+        w = rng.random(ng) + 0.1
+        op = make_opacity(np.array([300.0, 900.0]), np.array([1.0, 1e5]), tab, wn, 'linear', w / w.sum())
+        T, P = float(rng.uniform(300, 900)), float(10 ** rng.uniform(0, 5))
+        run_ktable_case(ctx, op, wn, np.asarray(op.opacity(T, P)), T, P, k, ng,
+                        kind=['beyond-bottom', 'beyond-top', 'beyond-both'][k % 3])
+
+
 def run(ctx):
     fm.quiet()
     try:
@@ -840,6 +876,7 @@ def run(ctx):
         run_witness(ctx)
         run_models(ctx)
         run_contrib_models(ctx)
+        run_ktable_beyond(ctx)
     finally:
         fm.reset_caches()
 
